@@ -68,6 +68,20 @@ impl tokio::io::AsyncRead for ScriptedReader {
     }
 }
 
+/// A connection that accepts at most `cap` bytes per write call (0: everything), as a socket with a nearly full send buffer does.
+pub struct ShortWriter { pub out: Vec<u8>, pub cap: usize, pub writes: u32 }
+impl ShortWriter { pub fn new(cap: usize) -> Self { Self { out: vec![], cap, writes: 0 } } }
+impl tokio::io::AsyncWrite for ShortWriter {
+    fn poll_write(mut self: Pin<&mut Self>, _cx: &mut Context<'_>, buf: &[u8]) -> Poll<std::io::Result<usize>> {
+        self.writes += 1;
+        let n = if self.cap == 0 { buf.len() } else { buf.len().min(self.cap) };
+        self.out.extend_from_slice(&buf[..n]);
+        Poll::Ready(Ok(n))
+    }
+    fn poll_flush(self: Pin<&mut Self>, _cx: &mut Context<'_>) -> Poll<std::io::Result<()>> { Poll::Ready(Ok(())) }
+    fn poll_shutdown(self: Pin<&mut Self>, _cx: &mut Context<'_>) -> Poll<std::io::Result<()>> { Poll::Ready(Ok(())) }
+}
+
 /// Independent, strict HTTP/1.1 response parser (trusted base of the harness).
 #[derive(Debug, Clone, Default)]
 pub struct ParsedResponse { pub status: u16, pub reason: String, pub headers: Vec<(String, String)>, pub body: Vec<u8>, pub framing: String, pub consumed: usize, pub error: String }
